@@ -3,6 +3,7 @@ import IRModel.Lemmas.WrapC05
 import IRModel.Lemmas.WrapC07
 import IRModel.Lemmas.WrapC03
 import IRModel.Lemmas.WrapC08
+import IRModel.Lemmas.WrapC06
 /-!
 # Wrapper-level theorems (per-protocol `encode()` / `decode()` bodies inside the model)
 
@@ -80,6 +81,19 @@ theorem C03_wrapper (t : Tables) (w : Wrapper) (tol : Match.Tol) (htol : tol.ok)
 theorem C08_wrapper (t : Tables) (w : Wrapper) (hok : c08OK t w = true) (tol : Match.Tol) (inputs : List (List Int)) :
     ∀ r ∈ runInputs t w { last := none, tol := tol } inputs, ∀ e, r = .error e → e.isLibrary = true :=
   C08_wrapper_history t w (c08OK_spec t w hok) inputs _ (by intro l hl; simp at hl)
+
+/-- **C06 at wrapper level** (protocols that repeat the data frame): for every parameter assignment inside the advertised
+    ranges and `repeat_count` 0, 1, 2, the complete frame sequence the traced `encode()` emits, fed in order to one
+    decoder instance started without history, yields on EVERY frame a code reporting exactly the encoded parameters.
+    (Composition of `C01_wrapper` — first frame —, `C07_wrapper` — a full frame in any held state —, the invariant of
+    `C08_wrapper` — the held code is always a code of the protocol — and `C03_wrapper` — the sequence exists.) -/
+theorem C06_wrapper (t : Tables) (w : Wrapper) (tol : Match.Tol) (htol : tol.ok) (hw : wfAll t tol = true)
+    (h1 : c01OK t w = true) (h3 : c03OK t w = true) (h6 : c06OK t w = true) (h7 : c07OK t w = true) (h8 : c08OK t w = true)
+    (u : String → Int) (hu : ∀ n, 0 ≤ u n) (hr : ∀ ep ∈ t.encodeParams, u ep.1 ≤ ep.2.2) (rc : Nat) (hrc : rc < 3) :
+    ∃ fs, encodeFrames t w u rc = .ok fs ∧ fs ≠ [] ∧
+      ∀ r ∈ runInputs t w { last := none, tol := tol } fs,
+        ∃ c, r = .ok c ∧ ∀ ep ∈ t.encodeParams, c.get (Props.C01.viewKey ep.1) = some (u ep.1).toNat :=
+  C06_wrapper_spec t w tol htol hw h1 h3 h6 h7 h8 u hu hr rc hrc
 
 /-- non-vacuity: a two-field toy protocol (pulse distance, 8-bit function + its complement, `decode()` re-checks the
     complement) meets both obligations -/
